@@ -63,7 +63,7 @@ out.append("## 12. Seeded changes: which check catches which change\n")
 out.append("Each row is one change written by an independent worker who saw only the property text and a scratch\n"
            "worktree (never `/verif`); each compiles, passes the unedited 67-test suite + doctest, and breaks the property\n"
            "on a concrete input (the worker's demonstration test, re-run by us with and without the change). The\n"
-           "changes live in `seeded/<id>/` (`patch.diff`, `seeded_demo.rs`, `meta.json`; suffix b = second round, c/d/e/f = third to sixth round, g = seventh round (refactoring-style rewrites of whole functions, 10-60 lines, behaviour-identical except in one corner), h = eighth round (optimisation-style changes: caches, fast paths, batching, early returns), whose workers were told what the earlier changes were and asked for a different function and mechanism; the fourth round was also asked for changes that alter behaviour on as few inputs as possible) and are never committed to `/repo`.\n"
+           "changes live in `seeded/<id>/` (`patch.diff`, `seeded_demo.rs`, `meta.json`; suffix b = second round, c/d/e/f = third to sixth round, g = seventh round (refactoring-style rewrites of whole functions, 10-60 lines, behaviour-identical except in one corner), h = eighth round (optimisation-style changes: caches, fast paths, batching, early returns), i = ninth round (ten properties; two-site changes: two edits that each look harmless alone and break the property only through their interaction), whose workers were told what the earlier changes were and asked for a different function and mechanism; the fourth round was also asked for changes that alter behaviour on as few inputs as possible) and are never committed to `/repo`.\n"
            "`tools/run_seeded.sh` applies one, runs `./check <property> --tier quick` (seed 1), undoes it. Columns:\n"
            "*dis* = cases where model and implementation differ, *orc* = cases where the implementation-level oracle\n"
            "fails; *mechanism* = what the first reported replay rests on (`correspondence+oracle(k)`: the states/bytes\n"
